@@ -50,6 +50,7 @@ type funcRole struct {
 	Recv    string   // pinned receiver type name ("" = any / package-level function)
 	Params  []string // suffixes of the parameter types
 	Results []string // suffixes of the result types
+	Body    string   // "" or a feature the body must have: "sel:NAME" (a selector .NAME), "recv" (a channel receive)
 }
 
 var typeRoles = []typeRole{
@@ -65,17 +66,21 @@ var typeRoles = []typeRole{
 }
 
 var funcRoles = []funcRole{
-	{"(*internal/usecase/cleaner.UseCase).deleteFile", "internal/usecase/cleaner", "UseCase", []string{"context.Context", "internal/model.File"}, []string{"error"}},
-	{"internal/repository/file.unmarshalFile", "internal/repository/file", "", []string{"[]byte", "*internal/model.File"}, []string{"error"}},
-	{"internal/repository/file.marshalFile", "internal/repository/file", "", []string{"internal/model.File", "[]byte"}, []string{"error"}},
-	{"internal/repository/file.fileLen", "internal/repository/file", "", []string{"internal/model.File"}, []string{"int"}},
-	{"internal/model/core.binarySearch", "internal/model/core", "", []string{"internal/model.File]", "sequence.Seq"}, []string{"internal/model.File]"}},
-	{"(*internal/usecase/core.UseCase).storeToTx", "internal/usecase/core", "", []string{"*internal/model/core.Transaction", "internal/model.File"}, nil},
-	{"(*internal/usecase/core.UseCase).mergeFiles", "internal/usecase/core", "", []string{"[]internal/model.File", "[]internal/model.File"}, []string{"[]internal/model.File"}},
-	{"(*internal/repository/file.Repo).key", "internal/repository/file", "Repo", []string{"string"}, []string{"[]byte"}},
-	{"(*internal/repository/content_file.Repo).key", "internal/repository/content_file", "Repo", []string{"string"}, []string{"[]byte"}},
-	{"(*internal/utils/wpool.Pool).exec", "internal/utils/wpool", "Pool", []string{"wpool.Event"}, nil},
-	{"(*internal/utils/wpool.Pool).lazySend", "internal/utils/wpool", "Pool", []string{"wpool.Event"}, nil},
+	{"(*internal/usecase/cleaner.UseCase).deleteFile", "internal/usecase/cleaner", "UseCase", []string{"context.Context", "internal/model.File"}, []string{"error"}, ""},
+	{"internal/repository/file.unmarshalFile", "internal/repository/file", "", []string{"[]byte", "*internal/model.File"}, []string{"error"}, ""},
+	{"internal/repository/file.marshalFile", "internal/repository/file", "", []string{"internal/model.File", "[]byte"}, []string{"error"}, ""},
+	{"internal/repository/file.fileLen", "internal/repository/file", "", []string{"internal/model.File"}, []string{"int"}, ""},
+	{"internal/model/core.binarySearch", "internal/model/core", "", []string{"internal/model.File]", "sequence.Seq"}, []string{"internal/model.File]"}, ""},
+	{"(*internal/usecase/core.UseCase).storeToTx", "internal/usecase/core", "", []string{"*internal/model/core.Transaction", "internal/model.File"}, nil, ""},
+	{"(*internal/usecase/core.UseCase).mergeFiles", "internal/usecase/core", "", []string{"[]internal/model.File", "[]internal/model.File"}, []string{"[]internal/model.File"}, ""},
+	{"(*internal/repository/file.Repo).key", "internal/repository/file", "Repo", []string{"string"}, []string{"[]byte"}, ""},
+	{"(*internal/repository/content_file.Repo).key", "internal/repository/content_file", "Repo", []string{"string"}, []string{"[]byte"}, ""},
+	// worker pool: exec runs the job's function, lazySend parks the job in the list, run receives from the job
+	// channel, lazyResend takes the single-flusher flag with TryLock
+	{Key: "(*internal/utils/wpool.Pool).exec", Pkg: "internal/utils/wpool", Params: []string{"...", "wpool.Event"}, Body: "sel:Fn"},
+	{Key: "(*internal/utils/wpool.Pool).lazySend", Pkg: "internal/utils/wpool", Recv: "Pool", Params: []string{"wpool.Event"}, Body: "sel:PushBack"},
+	{Key: "(*internal/utils/wpool.Pool).run", Pkg: "internal/utils/wpool", Recv: "Pool", Body: "recv"},
+	{Key: "(*internal/utils/wpool.Pool).lazyResend", Pkg: "internal/utils/wpool", Recv: "Pool", Body: "sel:TryLock"},
 }
 
 func shortType(t types.Type) string {
@@ -86,7 +91,20 @@ func shortType(t types.Type) string {
 func stripTypeArgsKeep(s string) string { return s }
 
 func sigMatches(sig *types.Signature, params, results []string) bool {
-	if sig.Params().Len() != len(params) || sig.Results().Len() != len(results) {
+	// a leading "..." lets any parameters precede the listed ones
+	if len(params) > 0 && params[0] == "..." {
+		params = params[1:]
+		if sig.Params().Len() < len(params) || sig.Results().Len() != len(results) {
+			return false
+		}
+		off := sig.Params().Len() - len(params)
+		for i, want := range params {
+			if !strings.HasSuffix(shortType(sig.Params().At(off+i).Type()), want) {
+				return false
+			}
+		}
+		params = nil
+	} else if sig.Params().Len() != len(params) || sig.Results().Len() != len(results) {
 		return false
 	}
 	for i, want := range params {
@@ -198,6 +216,9 @@ func resolveRoles(pkgs map[string]*packages.Package) {
 				continue
 			}
 			if !sigMatches(sig, fr.Params, fr.Results) {
+				continue
+			}
+			if fr.Body != "" && !bodyHas(pkg, fn, fr.Body) {
 				continue
 			}
 			cands = append(cands, cand{k, fn})
@@ -342,13 +363,34 @@ func resolveMutexFields(pkgs map[string]*packages.Package) {
 					if !ok || len(c.Args) != 1 {
 						return true
 					}
-					if sel, ok := c.Fun.(*ast.SelectorExpr); ok && sel.Sel.Name == "NewCond" {
+					if sel, ok := c.Fun.(*ast.SelectorExpr); ok && sel.Sel.Name == "NewCond" && condM == nil {
 						a := ast.Unparen(c.Args[0])
 						if u, ok := a.(*ast.UnaryExpr); ok {
 							a = ast.Unparen(u.X)
 						}
 						if in, ok := a.(*ast.SelectorExpr); ok {
 							if fv, ok := pkg.TypesInfo.Uses[in.Sel].(*types.Var); ok {
+								condM = fv
+							}
+						}
+					}
+					return true
+				})
+			}
+			// ... or a condition variable kept by value whose locker is set: x.cond.L = &x.mu
+			for _, file := range pkg.Syntax {
+				ast.Inspect(file, func(x ast.Node) bool {
+					as, ok := x.(*ast.AssignStmt)
+					if !ok || len(as.Lhs) != 1 || len(as.Rhs) != 1 || condM != nil {
+						return true
+					}
+					if l, ok := ast.Unparen(as.Lhs[0]).(*ast.SelectorExpr); ok && l.Sel.Name == "L" {
+						a := ast.Unparen(as.Rhs[0])
+						if u, ok := a.(*ast.UnaryExpr); ok {
+							a = ast.Unparen(u.X)
+						}
+						if in, ok := a.(*ast.SelectorExpr); ok {
+							if fv, ok := pkg.TypesInfo.Uses[in.Sel].(*types.Var); ok && isMutexType(fv.Type()) {
 								condM = fv
 							}
 						}
@@ -468,7 +510,7 @@ var poolFields = struct{ Ctx, Cancel, Ch, SendWg, RunWg string }{"ctx", "cancel"
 // uniqueTyped: fields that are the only one of their type in their struct (pinned name by type)
 var uniqueTyped = map[string]map[string]string{
 	"internal/utils/wpool.Pool":       {"core.List[": "el"},
-	"internal/utils/async.readWriter": {"error": "err", "bytes.Buffer": "buf", "*sync.Cond": "cv", "atomic.Bool": "closed"},
+	"internal/utils/async.readWriter": {"error": "err", "bytes.Buffer": "buf", "sync.Cond": "cv", "atomic.Bool": "closed"},
 }
 
 func resolveUniqueTyped(pkgs map[string]*packages.Package) {
@@ -611,4 +653,41 @@ func resolveAllStore(pkgs map[string]*packages.Package) {
 		roleNotes = append(roleNotes, "field usecase/core.UseCase.allStore is now "+hits[0])
 		allStoreField = hits[0]
 	}
+}
+
+// bodyHas: does the declaration of fn contain the feature (see funcRole.Body)? Function literals count.
+func bodyHas(pkg *packages.Package, fn *types.Func, feature string) bool {
+	for _, file := range pkg.Syntax {
+		for _, d := range file.Decls {
+			fd, ok := d.(*ast.FuncDecl)
+			if !ok || fd.Body == nil || pkg.TypesInfo.Defs[fd.Name] != fn {
+				continue
+			}
+			found := false
+			ast.Inspect(fd.Body, func(x ast.Node) bool {
+				switch {
+				case strings.HasPrefix(feature, "sel:"):
+					if sel, ok := x.(*ast.SelectorExpr); ok && sel.Sel.Name == feature[4:] {
+						found = true
+					}
+				case feature == "recv":
+					if u, ok := x.(*ast.UnaryExpr); ok && u.Op.String() == "<-" {
+						if tv, ok := pkg.TypesInfo.Types[u.X]; ok && strings.Contains(tv.Type.String(), "Event") {
+							found = true
+						}
+					}
+					if rs, ok := x.(*ast.RangeStmt); ok {
+						if tv, ok := pkg.TypesInfo.Types[rs.X]; ok {
+							if _, isChan := tv.Type.Underlying().(*types.Chan); isChan {
+								found = true
+							}
+						}
+					}
+				}
+				return !found
+			})
+			return found
+		}
+	}
+	return false
 }
